@@ -54,6 +54,8 @@ def plan(tier, seed):
     per = 18 if tier == "quick" else 120
     out = [{"kind": "generated", "cases": per, "base": seed * 1000003 + k} for k in range(n)]
     out.append({"kind": "textbook", "base": seed})
+    # long chains (70 000 steps each) on models with a non-zero equality: where the periodic re-projection has work to do
+    out += [{"kind": "long-chain", "cases": 2 if tier == "quick" else 6, "base": seed * 1000003 + 500 + k} for k in range(2 if tier == "quick" else 8)]
     return out
 
 
@@ -116,15 +118,78 @@ def free_dimensions(model):
     return dims
 
 
-def run_model(acc, rng, model, extra, ident0, sig):
+class _Refused(Exception):
+    """The sampler's constructor refused the model (documented: degenerate spaces, MILPs)."""
+
+
+_BYSTANDERS = []  # sampler objects of another model that stay alive (a sampler must not depend on being the latest one built)
+
+
+def _bystander_model():
+    import cobra
+
+    m = cobra.Model("bystander")
+    a = cobra.Metabolite("a_c", compartment="c")
+    rs = []
+    for rid, coef, lb, ub in (("IN", 1, 2, 5), ("OUT1", -1, 0, 10), ("OUT2", -1, -1, 10), ("OUT3", -2, 0, 3)):
+        r = cobra.Reaction(rid, lower_bound=lb, upper_bound=ub)
+        r.add_metabolites({a: coef})
+        rs.append(r)
+    m.add_reactions(rs)
+    return m
+
+
+_REPROJ = {"installed": False, "calls": 0, "acted": 0}
+
+
+def _tap_reproject():
+    """Observability: how often does the periodic re-projection meet a point that has left the equalities (only then
+    does it do anything)?  Without such events a run says nothing about that branch."""
+    if _REPROJ["installed"]:
+        return
+    from cobra.sampling.hr_sampler import HRSampler
+
+    orig = HRSampler._reproject
+
+    def _reproject(self, p):
+        _REPROJ["calls"] += 1
+        try:
+            if not np.allclose(self.problem.equalities.dot(p), self.problem.b, rtol=0, atol=self.feasibility_tol):
+                _REPROJ["acted"] += 1
+        except Exception:
+            pass
+        return orig(self, p)
+
+    HRSampler._reproject = _reproject
+    _REPROJ["installed"] = True
+
+
+def run_model(acc, rng, model, extra, ident0, sig, long_chain=False):
+    from cobra.sampling import ACHRSampler, OptGPSampler, sample
+
+    _tap_reproject()
+    c0, a0 = _REPROJ["calls"], _REPROJ["acted"]
+    try:
+        _run_model(acc, rng, model, extra, ident0, sig, long_chain)
+    finally:
+        acc.count("reprojection_checks_observed", _REPROJ["calls"] - c0)
+        acc.count("reprojections_of_a_point_off_the_equalities", _REPROJ["acted"] - a0)
+
+
+def _run_model(acc, rng, model, extra, ident0, sig, long_chain=False):
     from cobra.sampling import ACHRSampler, OptGPSampler, sample
 
     tol = model.tolerance
     snap = observe.snapshot(model)
-    for call in range(3):
+    for call in range(3 if not long_chain else 1):
         method = rng.choice(["achr", "optgp", "optgp"])
         n = rng.choice([1, 7, 7, 50])
         thinning = rng.choice([1, 10, 10, 100])
+        if long_chain:
+            # tens of thousands of steps on one chain: round-off drifts off the equalities and the periodic re-projection
+            # (every nproj steps, only when the running point has left them) actually has to repair something
+            n, thinning = 700, 100
+            acc.count("long_chains")
         seed = rng.choice([1, 42, 12345])
         procs = rng.choice([1, 1, 2, 4]) if method == "optgp" else 1
         space = rng.choice(["fluxes", "fluxes", "variables"])
@@ -132,6 +197,8 @@ def run_model(acc, rng, model, extra, ident0, sig):
         nproj = rng.choice([None, 5, 20])
         if via == "sample()":
             space, nproj = "fluxes", None
+        if long_chain:
+            procs, via, nproj = 1, "object", rng.choice([None, 50])
         acc.add("methods", method)
         ident = dict(ident0, method=method, n=n, thinning=thinning, seed=seed, processes=procs, space=space, via=via, nproj=nproj)
         acc.journal(dict(ident, about_to_run="sample"))
@@ -159,10 +226,32 @@ def run_model(acc, rng, model, extra, ident0, sig):
                     df = sample(model, n, method=method, thinning=thinning, processes=procs, seed=seed)
                     sampler = None
                 else:
-                    sampler = make()
+                    try:
+                        sampler = make()
+                    except (ValueError, TypeError):
+                        raise _Refused()
+                    if method == "optgp" and rng.random() < 0.5:
+                        # another model's sampler is built after ours and stays alive while ours is used.  (Not next to
+                        # ACHR samplers: ACHR seeds numpy's *global* generator when it is constructed and draws from it
+                        # afterwards, so by design its output depends on every other user of that generator in between;
+                        # "the same seed gives the same samples" is judged for identical call sequences.)
+                        try:
+                            _BYSTANDERS.append(OptGPSampler(_bystander_model(), thinning=3, seed=7, processes=rng.choice([1, 1, 2])))
+                            del _BYSTANDERS[:-2]
+                            acc.count("draws_with_a_later_built_sampler_of_another_model_alive")
+                        except Exception:
+                            pass
                     df = draw(sampler)
-        except (ValueError, TypeError) as e:
+        except _Refused:
             acc.count("documented_refusals")
+            continue
+        except (ValueError, TypeError) as e:
+            if via == "sample()":
+                # construction and drawing happen inside one call: a refusal cannot be told from a failing draw
+                acc.count("documented_refusals")
+                continue
+            acc.ev()
+            acc.violation(f"C16/{method}/draw-raised/{type(e).__name__}", f"a sampler that was constructed without complaint raised {type(e).__name__} while drawing: {str(e)[:160]}", ident)
             continue
         except RuntimeError as e:
             if "Cannot escape sampling region" in str(e):
@@ -347,8 +436,9 @@ def run_shard(desc, acc):
         acc.sample({"model": "textbook"})
         return
     first = desc.get("first", 0)
+    long_chain = desc["kind"] == "long-chain"
     for case in range(first, first + desc["cases"]):
-        rng = gen.rng_for("C16", desc["base"], case)
+        rng = gen.rng_for("C16L" if long_chain else "C16", desc["base"], case)
         rec = gen.network(rng, genes=0, finite=True, size=rng.randint(1, 2), allow_forced=rng.random() < 0.4)
         lab, _r = gen.classify(rec)
         if lab["status"] != "optimal":
@@ -383,7 +473,7 @@ def run_shard(desc, acc):
             model.add_reactions([late])
             acc.count("models_with_a_user_variable_inside_the_variable_list")
         extra = []
-        if rng.random() < 0.45:
+        if rng.random() < 0.45 or long_chain:
             for k in range(rng.randint(1, 2)):
                 rs = rng.sample(list(model.reactions), min(2, len(model.reactions)))
                 coefs = {r.id: rng.choice([1, -1, 2]) for r in rs}
@@ -399,6 +489,8 @@ def run_shard(desc, acc):
                     shapes.append((val - 5e-6 * abs(val), val) if val > 0 else (val, val + 5e-6 * abs(val)))
                     shapes.append((val - 5e-6 * abs(val), val) if val > 0 else (val, val + 5e-6 * abs(val)))
                 lb, ub = rng.choice(shapes)
+                if long_chain and abs(val) > 1e-6 and k == 0:
+                    lb, ub = val, val  # an equality with a non-zero right-hand side
                 acc.add("extra_constraint_shapes", "equality" if lb == ub else ("narrow-range" if lb is not None and ub is not None and ub - lb < 1e-3 * max(1.0, abs(ub)) else "range-or-one-sided"))
                 model.add_cons_vars([model.problem.Constraint(expr, lb=lb, ub=ub, name=f"extra_{k}")])
                 extra.append((coefs, lb, ub))
@@ -406,7 +498,12 @@ def run_shard(desc, acc):
         if any(r.lower_bound > 0 or r.upper_bound < 0 for r in model.reactions):
             acc.count("inhomogeneous_models")
         ident0 = {"base": desc["base"], "case": case, "extra_constraints": [[c, lb, ub] for c, lb, ub in extra]}
-        run_model(acc, rng, model, extra, ident0, gen.recipe_sig(rec))
+        if long_chain:
+            # the tightest tolerance the package accepts: the drift of a long chain leaves it after hundreds, not
+            # hundreds of thousands, of steps, so that the periodic re-projection has to act within the budget
+            model.tolerance = 1e-9
+            ident0["tolerance"] = 1e-9
+        run_model(acc, rng, model, extra, ident0, gen.recipe_sig(rec), long_chain=long_chain)
         if case == first:
             acc.sample({"n_reactions": len(rec["rxns"]), "extra_constraints": ident0["extra_constraints"]})
         acc.checkpoint()
